@@ -1138,7 +1138,9 @@ def run_pearson(case, drv):
     variants.append(("int64-dtype", (df * den).round().astype("int64"), zn))
     variants.append(("int32-mixed", (df * den).round().astype({c: "int32" for c in ([xn] + zn[:1])}), zn))
     xs = case.get("xscales")
-    if xs:
+    # (not with an exactly duplicated conditioning column: a non-dyadic factor rounds every entry, so the scaled copy
+    #  is no longer an exact multiple of its twin and the data as given has a genuine 1e-14-sized extra direction)
+    if xs and case.get("sing") != "dup":
         cols = [xn, yn] + zn
         variants.append(("extreme-scale-all", setcols(df, {c: df[c] * xs[i] for i, c in enumerate(cols)}), zn))
         j = rng.randrange(len(cols))
@@ -1229,9 +1231,8 @@ def run_pearson_big(case, drv):
     if not (abs(coef_i - r_m) <= tol and abs(p_i - p_m) <= tol_p):
         # (before fix 3ee69a0 lstsq(rcond=None) on the raw [1 Z] dropped a conditioning column with a large offset
         # or a very different unit)
-        zover = nz and any(not (1e-154 < sc < 1e154) for sc in big["scales"][2:])
-        return bad("impl!=model:pearson-conditioning", detail, key=key, tags=tags,
-                   finding="pearsonr-z-norm-overflow" if zover else None)
+        # (before fix 0b5f1ee the Euclidean norm used for scaling under/overflowed for Z units beyond 1e+-154)
+        return bad("impl!=model:pearson-conditioning", detail, key=key, tags=tags)
     alpha = case["alpha"]
     v_i = bool(CITests.pearsonr("X", "Y", zn, df, boolean=True, significance_level=alpha))
     if abs(p_m - alpha) > tol_p and v_i != bool(drv.call("c19_verdict", [p_opt(p_m), Fraction(alpha)])):
